@@ -23,7 +23,7 @@ class RequestTimeout(Exception):
 
 import signal  # noqa: E402
 
-OP_TIMEOUT = float(os.environ.get("VERIF_OP_TIMEOUT", "5"))
+OP_TIMEOUT = float(os.environ.get("VERIF_OP_TIMEOUT", "30"))   # generous: a loaded machine must not look like a hang
 TIMEOUTS = [0]   # how many calls into the code under test ran out of time in this process
 
 
